@@ -49,6 +49,9 @@ var corpus = []string{
 	"layers: {l: {b}}\na\nscenarios: {s: {c}}\n",
 	"steps: {f: {db}}\n*.style.fill: red\nsteps: {x: {q}}\ndb\n",
 	"meow \\\r\n\tok: x\r\n",
+	"steps: {a: {x}}\nsteps.b.y\n",
+	"layers.detail.a.shape: circle\nscenarios.hot.x: burning\nlayers.detail.a\nq\n",
+	"vars: {d: x}\na: ${d}null\nb: \"${d}true\"\n",
 }
 
 func compile(src string, files map[string]string) (proj map[string]any, cfg []string, errs string) {
@@ -166,6 +169,14 @@ func srcFeatures(m *d2ast.Map) []string {
 					}
 				}
 			} else if nb.Comment == nil && nb.BlockComment == nil {
+				// a flat key into a board (`steps.b.y`) behind a board block: Format moves the block behind it
+				if (seenInherit || seenLayer) && nb.MapKey != nil && nb.MapKey.Key != nil && len(nb.MapKey.Key.Path) > 1 {
+					if u, ok := nb.MapKey.Key.Path[0].Unbox().(*d2ast.UnquotedString); ok {
+						if _, isB := d2ast.BoardKeywords[strings.ToLower(u.ScalarString())]; isB {
+							set["boards:flat-key-after-block"] = true
+						}
+					}
+				}
 				if seenInherit {
 					set["boards:decl-after-scenarios-or-steps"] = true
 				}
@@ -204,6 +215,107 @@ func srcFeatures(m *d2ast.Map) []string {
 		out = append(out, k)
 	}
 	sort.Strings(out)
+	return out
+}
+
+// declSigs lists every declaration (map key) of a file with its context, case-folded and without quoting:
+// "ctx > key" where key = dotted key path / edge chain [index] . edge key.  Format must not lose or invent any
+// of them except the board keys it drops on purpose (a layers/scenarios/steps key without a non-empty map).
+func declSigs(m *d2ast.Map) (sigs map[string]int, droppable map[string]bool) {
+	sigs, droppable = map[string]int{}, map[string]bool{}
+	pathStr := func(k *d2ast.KeyPath) string {
+		if k == nil {
+			return ""
+		}
+		parts := make([]string, 0, len(k.Path))
+		for _, sb := range k.Path {
+			if sb.Unbox() != nil {
+				parts = append(parts, strings.ToLower(sb.Unbox().ScalarString()))
+			}
+		}
+		return strings.Join(parts, ".")
+	}
+	var walkMap func(m *d2ast.Map, ctx string)
+	var walkVal func(n d2ast.Node, ctx string)
+	walkVal = func(n d2ast.Node, ctx string) {
+		switch v := n.(type) {
+		case *d2ast.Map:
+			walkMap(v, ctx)
+		case *d2ast.Array:
+			for i, nb := range v.Nodes {
+				if x := nb.Unbox(); x != nil {
+					walkVal(x, ctx+"["+string(rune('0'+i%10))+"]")
+				}
+			}
+		}
+	}
+	walkMap = func(m *d2ast.Map, ctx string) {
+		for _, nb := range m.Nodes {
+			mk := nb.MapKey
+			if mk == nil {
+				continue
+			}
+			key := pathStr(mk.Key)
+			if len(mk.Edges) > 0 {
+				key += "(" + pathStr(mk.Edges[0].Src)
+				for _, e := range mk.Edges {
+					key += " " + e.SrcArrow + "-" + e.DstArrow + " " + pathStr(e.Dst)
+				}
+				key += ")"
+				if mk.EdgeIndex != nil {
+					if mk.EdgeIndex.Glob {
+						key += "[*]"
+					} else if mk.EdgeIndex.Int != nil {
+						key += "[" + strings.Repeat("i", *mk.EdgeIndex.Int%7+1) + "]"
+					}
+				}
+				key += "." + pathStr(mk.EdgeKey)
+			}
+			if mk.Ampersand {
+				key = "&" + key
+			} else if mk.NotAmpersand {
+				key = "!&" + key
+			}
+			sig := ctx + " > " + key
+			sigs[sig]++
+			if nb.IsBoardNode() && len(mk.Key.Path) == 1 && !(mk.Value.Map != nil && len(mk.Value.Map.Nodes) > 0) {
+				droppable[sig] = true
+			}
+			if v := mk.Value.Unbox(); v != nil {
+				walkVal(v, sig)
+			}
+		}
+	}
+	walkMap(m, "")
+	return
+}
+
+// declFeatures compares the declarations of the source and of the formatted text
+func declFeatures(m *d2ast.Map, f1 string) []string {
+	m1, err := d2parser.Parse("index.d2", strings.NewReader(f1), nil)
+	if err != nil {
+		return nil
+	}
+	a, drop := declSigs(m)
+	b, _ := declSigs(m1)
+	var out []string
+	lost, gained := false, false
+	for k, n := range a {
+		if b[k] < n && !drop[k] {
+			lost = true
+		}
+	}
+	for k, n := range b {
+		if a[k] < n {
+			gained = true
+		}
+	}
+	if lost {
+		out = append(out, "decl:lost")
+	}
+	if gained {
+		out = append(out, "decl:gained")
+	}
 	return out
 }
 
@@ -246,7 +358,16 @@ func emitCase(c *hl.Ctx, origin, src string, files map[string]string, feat []str
 		out["ast"] = ast
 		c.Count("fragment:in")
 	}
+	// declSigs must see the tree before Format (it reads ranges only through IsBoardNode, but keep the order simple)
+	srcSigsTree := m
 	f1 := d2format.Format(m)
+	if df := declFeatures(srcSigsTree, f1); len(df) > 0 {
+		sf = append(sf, df...)
+		out["sf"] = sf
+		for _, f := range df {
+			c.Count("src:" + f)
+		}
+	}
 	out["f1"] = hl.Hx([]byte(f1))
 	out["g1"] = g1
 	out["cfg1"] = cfg1
